@@ -129,7 +129,16 @@ def main(tier, seed, replay=None):
                                    ids_before=json.loads(before)[1], original_afterwards=after[:1200],
                                    result_shares_node_objects_with_the_original=shared[:10]), True)
             continue
-        ptab = G.Table(pruned)
+        try:
+            from deeprob.spn.utils.validity import check_spn as _chk
+            _chk(pruned, labeled=True, smooth=True, decomposable=True)
+            ptab = G.Table(pruned)
+        except Exception as e:
+            ninv = dist.get("pruned_invalid", 0); dist["pruned_invalid"] = ninv + 1
+            if ninv < 3:
+                rep.violation(dict(kind="pruned-circuit-is-not-a-valid-circuit", circuit=json.loads(before)[0], ids=json.loads(before)[1],
+                                   error=f"{type(e).__name__}: {e}"), True)
+            continue
         rows = c01.missing_rows(rs, scope, dom, "quick")[:24]
         X = np.array([G.np_row(c, width, {}) for c in rows], dtype=np.float32)
         # direct oracle on the implementation: same likelihoods, normal form, second prune is a no-op
